@@ -30,6 +30,9 @@ CHECKS["C03"] = dict(tech="Engine.tla as the independent exact re-implementation
 CHECKS["C12"] = dict(tech="TLC exhaustive model checking of Covout.tla (weights on combinations: NonNegW, SumsToOne, Marginals, Convex, ZeroCov, Single, Monotone) + every enumerated case executed through Covout.get_outcome + TLC judgment of the returned values (CovoutTrace.tla: Expect, Convex, ZeroCov, Single, Marginal probes, Monotone pairs)",
                      text="The three coverage interactions are transcribed as a weight on every program combination; TLC proves on all grid cases (1-3 programs quick, 4 thorough) that the weights are a probability distribution with the coverages as marginals and the derived clauses; each case is then run in the real code and TLC compares the exact expected value and evaluates the property's clauses on the observed numbers, including marginals probed with indicator outcomes.",
                      ref="DESIGN.md section 6 C12", note=PURE_NOTE)
+CHECKS["C11"] = dict(tech="TLC exhaustive model checking of Coverage.tla (Bounded, UpperOK, ConstraintOK, NobodyEligible, MonoSpend, MonoCost, MonoCov, DtIndependent, Precedence) + every case executed through ProgramSet.get_capacities / get_prop_coverage and Program.get_prop_covered + TLC judgment (CoverageTrace.tla: CapExpect, CovExpect, Bounded, Upper, Monotone pairs, DtIndependent pairs)",
+                     text="Capacity and coverage are transcribed exactly for the unsaturated branch and relationally (bounds, limits) for the saturation curve; TLC checks the clauses of the property on every case of the grid (stepped spending series, one-off / continuous, constraints per year / absolute, saturation, eligible incl. 0, step sizes, all subsets of overwrites); each case is executed in the real code on both call paths (program set and the direct call the model makes) and TLC compares / bounds the observed values, including ordered pairs for monotonicity and step-independence.",
+                     ref="DESIGN.md section 6 C11", note=PURE_NOTE)
 NOT_YET = {}
 
 
@@ -51,7 +54,7 @@ def main():
              hooks=dict(guard="ATOMICA_VERIF", enable="no source hooks: observation is by run-time wrappers installed by harness/observe.py (ATOMICA_VERIF=1 is exported by ./check for completeness)",
                         baseline_off_cmd="cd /repo && /venv/bin/python -m pytest -ra -q -p no:cacheprovider --timeout=900 --continue-on-collection-errors", source_commits=[], add_only=True),
              engines=[dict(name="tla-engine", path="spec/Engine.tla", serves_properties=["C01", "C02", "C03", "C04", "C05"], kind_free_text="explicit TLA+ specification of the integration loop, TLC exhaustive + replay + trace validation"),
-                      dict(name="tla-pure", path="spec/", serves_properties=["C12"], kind_free_text="per-mechanism TLA+ modules (case enumeration + theorems checked by TLC) with a trace module that judges the values returned by the real code")],
+                      dict(name="tla-pure", path="spec/", serves_properties=["C11", "C12"], kind_free_text="per-mechanism TLA+ modules (case enumeration + theorems checked by TLC) with a trace module that judges the values returned by the real code")],
              checks=checks, not_applicable=na,
              notes="Two genuine defects repaired in /repo with 'fix:' commits (see known_findings.json). Exit codes: 0 held, 1 violation, 2 machinery failure.")
     json.dump(m, open(os.path.join(HERE, "MANIFEST.json"), "w"), indent=1)
